@@ -106,11 +106,13 @@ struct Tree {
     std::vector<Elem *> all;
     std::unordered_set<const void *> liveset;   // held elements (pointer identity)
     int next_id;
+    size_t boff;                                // plain tree: which bintree-node member of Elem it links (travels with swap)
 
-    void init(bool isrb, const char *t)
+    void init(bool isrb, const char *t, size_t bintree_off = offsetof(Elem, bn))
     {
         rb = isrb;
         tag = t;
+        boff = bintree_off;
         model.clear();
         fresh_clear(liveset);
         n = 0;
@@ -118,7 +120,7 @@ struct Tree {
         memset(&rt, 0xA5, sizeof rt);      // init must set every field itself
         memset(&bt, 0xA5, sizeof bt);
         if (rb) cstl_rbtree_init(&rt, cmp_cb, &g_priv_token, offsetof(Elem, rn));
-        else cstl_bintree_init(&bt, cmp_cb, &g_priv_token, offsetof(Elem, bn));
+        else cstl_bintree_init(&bt, cmp_cb, &g_priv_token, boff);
     }
     Elem *mk(int key)
     {
@@ -148,10 +150,10 @@ struct Tree {
     }
     // public-struct peeks (state identification, statistics, and the C02 walk)
     struct cstl_bintree_node *root() { return rb ? rt.t.root : bt.root; }
-    struct cstl_bintree_node *node(Elem *e) { return rb ? &e->rn.n : &e->bn; }
+    struct cstl_bintree_node *node(Elem *e) { return rb ? &e->rn.n : (struct cstl_bintree_node *)((char *)e + boff); }
     Elem *elem(struct cstl_bintree_node *b)
     {
-        return (Elem *)((char *)b - (rb ? offsetof(Elem, rn.n) : offsetof(Elem, bn)));
+        return (Elem *)((char *)b - (rb ? offsetof(Elem, rn.n) : boff));
     }
     // library calls
     size_t size() { size_t s; LIB(s = rb ? cstl_rbtree_size(&rt) : cstl_bintree_size(&bt)); return s; }
@@ -573,7 +575,9 @@ void vf_run(const uint8_t *data, size_t len)
     Cursor cur(data, len);
     int kind = cur.u8() % 3;                  // 0 both, 1 bintree, 2 rbtree
     int K = KEYS[cur.u8() % NKEYS];
-    g_cmp_kind = cur.u8() % 4;
+    uint8_t cmpb = cur.u8();
+    g_cmp_kind = cmpb % 4;
+    bool swap_epilogue = (cmpb & 0x80) != 0;
     size_t maxlive = MAXLIVE[cur.u8() % NMAXLIVE];
     int prof = cur.u8() % NPROFILES;
     bool c15 = g_prop == "C15", c02 = g_prop == "C02";
@@ -637,14 +641,38 @@ void vf_run(const uint8_t *data, size_t len)
             CHECK(oa == ob, rc, "after clear the tree behaves differently from a freshly initialised one (op %s)", OPN[op]);
         }
     }
+    static Tree TX;
+    bool swapped = false;
+    if (use[0] && swap_epilogue && !g_want_state && T[0].n <= 5000) {
+        // swap with a second plain tree whose elements are linked through ANOTHER node member (the bintree node inside the
+        // rbtree node, unused by a plain tree): afterwards each tree object must answer for the other's elements
+        g_cur_op = "swap";
+        TX.destroy();
+        TX.init(false, "bin2", offsetof(Elem, rn.n));
+        for (int j = 0; j < 4; j++) apply(TX, cx, INS, (uint8_t)(j * 37 + 5), 0, K, 1000000, nullptr, false);
+        LIB(cstl_bintree_swap(&T[0].bt, &TX.bt));
+        std::swap(T[0].model, TX.model);
+        std::swap(T[0].n, TX.n);
+        std::swap(T[0].liveset, TX.liveset);
+        std::swap(T[0].all, TX.all);
+        std::swap(T[0].boff, TX.boff);
+        swapped = true;
+        CNT("class.swap.other_offset");
+        TRACE("swap bin <-> bin2 (linked through another node member): now %zu and %zu elements", T[0].n, TX.n);
+        if (!c15) full_audit(TX, K, nullptr);      // (under C15 the clears below decide: their callbacks must get exactly the right elements)
+    }
     g_cur_op = "final audit";
-    for (int i = 0; i < 2; i++) if (use[i]) { full_audit(T[i], K, nullptr); if (T[i].n >= 3) cx.walk3 = true; }
+    for (int i = 0; i < 2; i++) if (use[i] && !(c15 && swapped && i == 0)) { full_audit(T[i], K, nullptr); if (T[i].n >= 3) cx.walk3 = true; }
     if (g_want_state && !state_marked) snapshot();
     for (int i = 0; i < 2; i++) {
         if (!use[i]) continue;
         apply(T[i], cx, CLEAR, 0, 0, K, maxlive, nullptr, false);
         if (twin_on[i]) apply(TW[i], cx, CLEAR, 0, 0, K, maxlive, nullptr, false);
         CHECK(T[i].all.empty(), T[i].rb ? "C15.rbtree.once" : "C15.bintree.once", "%zu elements never reached the clear callback", T[i].all.size());
+    }
+    if (swapped) {
+        apply(TX, cx, CLEAR, 0, 0, K, maxlive, nullptr, false);
+        CHECK(TX.all.empty(), "C15.bintree.once", "%zu elements of the swapped tree never reached the clear callback", TX.all.size());
     }
     if (c15) g_nontrivial = cx.clear3 && cx.reuse;
     else if (c02) g_nontrivial = cx.erase_black4 && cx.insert_red_parent;
@@ -655,6 +683,20 @@ void vf_run(const uint8_t *data, size_t len)
 void vf_gen(Rng &r, std::vector<uint8_t> &out)
 {
     bool c15 = g_prop == "C15", c02 = g_prop == "C02";
+    if (!c02 && r.chance(1, 300)) {
+        // a deep, thin plain tree (nothing balances a cstl_bintree): a spine of 70-250 nodes descending to one side, each
+        // spine node with a child on the other side -- the shape that costs a walk / clear with bounded auxiliary space
+        size_t N = 70 + r.below(180);
+        bool left = r.chance(1, 2);
+        out.insert(out.end(), {1, 7, 0, 0, 0});       // bintree only, 1000 keys, ascending order, unlimited, uniform profile (op byte == op)
+        for (size_t i = 0; i < N; i++) {
+            size_t spine = left ? 2 * (N - i) + 100 : 2 * i + 100, side = spine + 1;
+            if (!left) { size_t t = spine; spine = t + 1; side = t; }     // descending to the right: the side child is the smaller key
+            for (size_t k : {spine, side}) { out.push_back(INS); out.push_back((uint8_t)k); out.push_back((uint8_t)(k >> 8)); }
+        }
+        for (int i = 0; i < 4; i++) { out.push_back(r.chance(1, 2) ? AUDIT : ERASE); out.push_back(r.byte()); out.push_back((uint8_t)r.below(3)); }
+        return;
+    }
     out.push_back(c02 ? 2 : r.byte());
     // key universe: heavy duplication is the interesting part
     static const uint8_t kw[] = {0, 1, 1, 2, 2, 3, 3, 4, 4, 5, 6, 7, 8, 9};
